@@ -177,6 +177,8 @@ COMMON_ASSUMPTIONS = [
     'floating-point arithmetic is modelled as exact real arithmetic; literals by their decimal text (DESIGN §2.1)',
     'numpy/scipy behave as the SymNP model (validated on this run by differential execution on concrete inputs, DESIGN §4.2)',
     'transcendental functions are fresh variables constrained by the axiom table of DESIGN §1.5',
+    'a division by / log / sqrt of a symbolic value is assumed defined (divisor != 0, argument in the domain) by the ordinary obligations of that path; '
+    'whether the undefined case is reachable is decided only where a definedness obligation is posted (C08 FIBER, C18 ADC). Symbolic array indices are not assumed in range: they fork.',
 ]
 
 
